@@ -35,7 +35,14 @@ RULE = ('generated dense KS/phy source directories (tens of spikes, 3-8 channels
         'trailing suffix, other extension, other letter case, one character changed/dropped/added, glob metacharacters, plain other '
         '*.dat / *.bin / cluster_*.tsv / spikes.* names; 40 % of the raw-data cases have their .dat/.bin files under another name '
         '(temp_wh_session1.dat, temp_wh2.dat, my data.dat, ..., or temp_wh.dat itself = the one file that may be deleted); 11 forced '
-        'instances run first.')
+        'instances run first. '
+        'Stage 6: 15 % of the conversion cases have source files (the two id vectors / the copied files / any subset / all regular files, raw data '
+        'and params.py included) present as links into a store outside the directory (symbolic with absolute or relative target, chain of two '
+        'links, hard link); an exported file that is itself a link is shown to the comparator as a non-array file of unknown content. 30 % of the '
+        'unlabelled fresh-target cases carry a HISTORY of the output directory: an earlier convert() of the same source directory into the same '
+        'target with the same or an earlier clustering (uncurated, another operation history, a merge creating id max+1), optionally damage to the '
+        'exported files (uuids file shortened / lengthened / junk, arrays with other row counts, files removed or emptied), then the judged '
+        'convert(force=True), compared with the model of an export into a fresh directory; 14 forced instances run first.')
 EXHAUSTIVE = {'quick': False, 'thorough': False}
 CLAUSES = {
     1: 'observed output / source directory differs from the Coq model PV.C13.Model.convert (file set, dtypes, shapes, determined values); '
@@ -62,7 +69,9 @@ ASSUMES = ['source = dense KS/phy-named directory with amplitudes.npy, consisten
            'probe tables with several probes have Merger-like channel maps (re-based raw indices non-negative); the channel-map '
            'round trip is claimed for single-probe datasets, for several probes the re-based rawInd is what loads back',
            'earlier spike-subset files are present only when there is no raw data (otherwise they are regenerated)',
-           'fresh (non-existing or empty) output directory']
+           'fresh (non-existing or empty) output directory, or (stage 6) a directory holding an earlier UNLABELLED export of the same source '
+           'directory (the source brought back to the modelled regime in between: subset files written by the earlier export removed) with '
+           'force=True; re-export with a non-empty label is an open finding (notes, stage 6) and not drawn']
 TIMEOUT = {'quick': 60, 'thorough': 120}
 
 # spellings of the source directory as target (all must be refused) and of a fresh target (none may be refused)
